@@ -24,6 +24,13 @@ ghost / duplicate / out-of-range name-table entries are refuted by the
 ordinary checks; additionally the definition bytes must equal those of the
 same program with the rejected helper removed.  A violation that the program
 without the helper does not show is keyed C04/failed-wrap-leaves-trace/<what>.
+
+Repeated control names (30 % of the programs): the same helper function is
+wrapped 2-3 times (own rates / prepend values each time) and/or a helper
+declares parameters named like those of the enclosing / top / another
+function.  Every declared occurrence is a control of its own: its own slots,
+its own sink wiring and its own name-table entry pointing at its own slot
+(multiset comparison; variants only address names declared once).
 """
 
 from vf.common import iter_cases, case_rng, h64, split, short_tb, tb_sites
@@ -44,7 +51,8 @@ ASSUMPTIONS = [
     "documentation, the definition file format and the statement)",
     "independent SCgf-2 parser vf/scgf.py",
     "rates entries are aligned with the parameters that become controls "
-    "(after prepended ones), as in sclang; duplicate control names, lag lists "
+    "(after prepended ones), as in sclang; variants addressing a control name "
+    "that is declared more than once, lag lists "
     "for scalar parameters, complex/invalid defaults and empty tuples are "
     "outside the domain",
     "positional arguments of SynthDef.__call__ name the controls of the "
@@ -58,6 +66,7 @@ MIN_COUNTERS = {
               'prepended_values_checked': 150, 'wrapped_functions': 300,
               'lagcontrol_chunked_groups': 5,
               'failed_wraps_recovered': 300,
+              'repeated_name_declarations': 1000,
               'failed_wrap_bytes_compared': 250},
     'thorough': {'programs_decoded': 60000, 'sinks_checked': 300000,
                  'name_entries_checked': 300000, 'lag_inputs_checked': 30000,
@@ -65,6 +74,7 @@ MIN_COUNTERS = {
                  'prepended_values_checked': 8000, 'wrapped_functions': 15000,
                  'lagcontrol_chunked_groups': 300,
                  'failed_wraps_recovered': 10000,
+                 'repeated_name_declarations': 30000,
                  'failed_wrap_bytes_compared': 8000},
 }
 
@@ -198,6 +208,9 @@ def eval_prog(acc, H, i, prog):
     pending_prepend = {}
 
     def body(fname, loc):
+        # identity of this invocation: the entry announced by the caller (the
+        # same python function may be wrapped several times)
+        fname = st.pop('next_fn', fname)
         f = funcs[fname]
         if f.get('fails'):
             # the library accepted the invalid annotation: no verdict
@@ -218,15 +231,16 @@ def eval_prog(acc, H, i, prog):
                         (fname, p['name'], repr(want)[:80], repr(got)[:80]))
         for p in f['params'][f['prepend']:]:
             v = loc[p['name']]
-            s = slots[p['name']]
+            key = (fname, p['name'])
+            s = slots[key]
             n = len(v) if isinstance(v, list) else 1
             if (isinstance(v, list) and not s.is_array and s.size == 1) or \
                     n != s.size:
                 st['shape_bad'].append((p['name'], s.size, repr(v)[:120]))
             if s.rate == 'ar':
-                H.iou.Out.ar(tags[p['name']], v)
+                H.iou.Out.ar(tags[key], v)
             else:
-                H.iou.Out.kr(tags[p['name']], v)
+                H.iou.Out.kr(tags[key], v)
         def do_wrap(child):
             c = funcs[child]
             vals = []
@@ -239,12 +253,17 @@ def eval_prog(acc, H, i, prog):
                     vals.append(H.ocl.SinOsc.ar(333))
             pending_prepend[child] = vals
             rates = None if c['rates'] is None else list(c['rates'])
-            if vals or c['prepend']:
-                H.SynthDef.wrap(ns[child], rates, list(vals))
-            elif rates is None:
-                H.SynthDef.wrap(ns[child])
-            else:
-                H.SynthDef.wrap(ns[child], rates)
+            fn = ns[c.get('alias_of', child)]
+            st['next_fn'] = child
+            try:
+                if vals or c['prepend']:
+                    H.SynthDef.wrap(fn, rates, list(vals))
+                elif rates is None:
+                    H.SynthDef.wrap(fn)
+                else:
+                    H.SynthDef.wrap(fn, rates)
+            finally:
+                st.pop('next_fn', None)
 
         for child in f['wraps']:
             if funcs[child].get('fails'):
@@ -306,8 +325,13 @@ def eval_prog(acc, H, i, prog):
     acc.count('programs_decoded')
     acc.count('wrapped_functions', len(MC.invocation_order(prog)) - 1)
     acc.count('parameters', len(lay['order']))
-    layout_desc = {n: (s.index, s.size, s.rate, s.lags if any(s.lags) else None)
-                   for n, s in slots.items()}
+    layout_desc = {f'{k[0]}.{k[1]}': (s.index, s.size, s.rate,
+                                      s.lags if any(s.lags) else None)
+                   for k, s in slots.items()}
+    ndup = sum(c for c in lay['name_count'].values() if c > 1)
+    acc.count('repeated_name_declarations', ndup)
+    if ndup:
+        acc.count('programs_with_repeated_names')
     wit['expected_layout'] = layout_desc
 
     # -- build-time observations ----------------------------------------
@@ -324,7 +348,8 @@ def eval_prog(acc, H, i, prog):
     if len(d.params) != lay['P']:
         viol('C04/param-count', decoded=len(d.params), expected=lay['P'])
         return raw
-    for n, s in slots.items():
+    for key, s in slots.items():
+        n = s.name
         for ch in range(s.size):
             if d.params[s.index + ch] != MC.f32(s.defaults[ch]):
                 viol(f'C04/default-value/{s.rate}', name=n, channel=ch,
@@ -334,21 +359,33 @@ def eval_prog(acc, H, i, prog):
     acc.count('default_slots_checked', lay['P'])
 
     # -- name table ------------------------------------------------------
+    # one entry per declared parameter occurrence, each pointing at its own
+    # slot (a name may be declared several times); compared as multisets
+    import collections
     names = [nm for nm, _ in d.param_names]
-    table = dict(d.param_names)
     acc.count('name_entries_checked', len(names))
-    if len(names) != len(set(names)):
-        viol('C04/name-table/duplicate', decoded=d.param_names)
-    elif set(names) != set(slots):
-        what = 'missing' if set(slots) - set(names) else 'extra'
-        viol(f'C04/name-table/{what}', decoded=d.param_names)
-    else:
-        for n, s in slots.items():
-            if table[n] != s.index:
-                viol(f'C04/name-table/index/{s.rate}', name=n,
-                     decoded_index=table[n], expected_index=s.index,
-                     decoded=d.param_names)
-                break
+    got_cnt = collections.Counter(names)
+    exp_cnt = collections.Counter(lay['name_count'])
+    exp_pairs = sorted((s.name, s.index) for s in slots.values())
+    if got_cnt != exp_cnt:
+        lost = {n: (exp_cnt[n], got_cnt.get(n, 0)) for n in exp_cnt
+                if got_cnt.get(n, 0) < exp_cnt[n]}
+        if lost and all(e > 1 for e, _ in lost.values()):
+            what = 'entry-of-repeated-name-lost'
+        elif lost:
+            what = 'missing'
+        else:
+            what = 'extra'
+        viol(f'C04/name-table/{what}', decoded=d.param_names,
+             expected=exp_pairs, lost=lost)
+    elif sorted(d.param_names) != exp_pairs:
+        bad = sorted(set(exp_pairs) - set(d.param_names))
+        s0 = next(s for s in slots.values()
+                  if (s.name, s.index) == bad[0])
+        rep_ = '/repeated-name' if lay['name_count'][s0.name] > 1 else ''
+        viol(f'C04/name-table/index/{s0.rate}{rep_}', name=s0.name,
+             expected_index=s0.index, decoded=d.param_names,
+             expected=exp_pairs)
 
     # -- control units partition the slots --------------------------------
     CTL = ('Control', 'TrigControl', 'AudioControl', 'LagControl')
@@ -373,8 +410,9 @@ def eval_prog(acc, H, i, prog):
     for u in d.units:
         if u.cls == 'Out' and u.inputs and u.inputs[0][0] == 'c':
             sinks.setdefault(d.constants[u.inputs[0][1]], []).append(u)
-    for n, s in slots.items():
-        us = sinks.get(float(tags[n]), [])
+    for key, s in slots.items():
+        n = s.name
+        us = sinks.get(float(tags[key]), [])
         if len(us) != 1:
             viol('C04/body-signal/sink-missing', name=n, found=len(us))
             continue
